@@ -1,5 +1,6 @@
+import EmmyVerif.Gen.IndexFields
 /-!
-# Index family — association-list maps (import-free)
+# Index family — association-list maps (core Lean + the regenerated source lists only)
 
 `hashbrown::HashMap<K, V>` is modelled as an association list `List (κ × α)` with at most one entry
 per key (`AMap.NoDup`, a separate well-formedness predicate). Only the operations the `db_index`
@@ -43,5 +44,34 @@ def aretainDrop [DecidableEq κ] (m : List (κ × List α)) (k : κ) (p : α →
   match aget m k with
   | none => m
   | some xs => if (xs.filter p).isEmpty then adel m k else aset m k (xs.filter p)
+
+/-! ## bridge to the source (T-src): which fields the Rust `clear` methods reset
+
+`Gen.IndexFields` is regenerated from `db_index/**/mod.rs` on every run. The models' `clear` operations reset
+a modelled map only if the source resets the corresponding field, so a `clear` that forgets a field (or
+`DbIndex::clear` that forgets an index) makes `clear_is_new` fail to check. -/
+
+/-- is field `f` of the index stored in `DbIndex.<idx>` reset by `DbIndex::clear`? -/
+def srcCleared (idx f : String) : Bool :=
+  Gen.IndexFields.dbCleared.contains idx &&
+  (Gen.IndexFields.indexes.any fun e => e.1 == idx && e.2.2.2.contains f)
+
+/-- a model map standing for the Rust field `fld` survives `clear` iff the source does not reset that field;
+model maps that stand for no Rust field do not survive -/
+def survivesClear (fld : Option (String × String)) : Bool :=
+  match fld with
+  | some (i, f) => !srcCleared i f
+  | none => false
+
+/-- fields that are deliberately not index state (configuration, counters, caches keyed by URL):
+`clear` does not have to reset them -/
+def configFields : List (String × String) :=
+  [("LuaModuleIndex", "module_patterns"), ("LuaModuleIndex", "module_root_id"), ("LuaModuleIndex", "workspaces"),
+   ("LuaModuleIndex", "id_counter"), ("LuaModuleIndex", "fuzzy_search"), ("LuaModuleIndex", "module_replace_vec"),
+   -- `JsonSchemaIndex::clear` / `remove` are `TODO`s in the source: resolved JSON schemas are kept per URL
+   ("JsonSchemaIndex", "schema_files")]
+
+/-- `DbIndex` fields that are not indexes -/
+def nonIndexDbFields : List String := ["vfs", "emmyrc"]
 
 end Index
